@@ -19,7 +19,7 @@ theorem addStepR_error (sub : Circuit) (imV : List Label) (e : String) : ∀ (ls
   | cons a t ih => simpa [addStepR] using ih
 
 /-- the state while the replacement's gates are added to what is left of the circuit -/
-structure AInv (c3 cc : Circuit) (imV : List Label) (added : List Gate) (seen : List Label) : Prop where
+structure AInv (c3 cc sub : Circuit) (imV : List Label) (added : List Gate) (seen : List Label) : Prop where
   gates : cc.gates = c3.gates ++ added
   inputs : cc.inputs = c3.inputs
   outputs : cc.outputs = c3.outputs
@@ -28,11 +28,12 @@ structure AInv (c3 cc : Circuit) (imV : List Label) (added : List Gate) (seen : 
   nodup : cc.labels.Nodup
   closed : ∀ g ∈ added, ∀ o ∈ g.ops, o ∈ cc.labels
   noInput : ∀ g ∈ added, g.ty ≠ INPUT
-  cover : ∀ l ∈ seen, imV.contains l = false → l ∈ cc.labels
+  fromSub : ∀ g ∈ added, g ∈ sub.gates ∧ imV.contains g.label = false
+  cover : ∀ l ∈ seen, imV.contains l = false → l ∈ added.map (·.label)
 
-theorem ainv_init {c3 : Circuit} (imV : List Label) (hnd : c3.labels.Nodup) : AInv c3 c3 imV [] [] :=
+theorem ainv_init {c3 : Circuit} (sub : Circuit) (imV : List Label) (hnd : c3.labels.Nodup) : AInv c3 c3 sub imV [] [] :=
   ⟨(by simp), rfl, rfl, rfl, (by intro l u; simp [contrib_nil]), hnd, (by intro g hg; cases hg),
-   (by intro g hg; cases hg), (by intro l hl; cases hl)⟩
+   (by intro g hg; cases hg), (by intro g hg; cases hg), (by intro l hl; cases hl)⟩
 
 theorem labels_append_gates {c c' : Circuit} {G : List Gate} (h : c'.gates = c.gates ++ G) :
     c'.labels = c.labels ++ G.map (·.label) := by
@@ -40,8 +41,8 @@ theorem labels_append_gates {c c' : Circuit} {G : List Gate} (h : c'.gates = c.g
 
 theorem addStepR_inv {c3 sub : Circuit} {imV : List Label}
     (hsubI : ∀ g ∈ sub.gates, g.ty = INPUT → imV.contains g.label = true) :
-    ∀ (ls seen : List Label) (cc c4 : Circuit) (added : List Gate), AInv c3 cc imV added seen →
-      ls.foldl (addStepR sub imV) (.ok cc) = .ok c4 → ∃ added', AInv c3 c4 imV added' (seen ++ ls) := by
+    ∀ (ls seen : List Label) (cc c4 : Circuit) (added : List Gate), AInv c3 cc sub imV added seen →
+      ls.foldl (addStepR sub imV) (.ok cc) = .ok c4 → ∃ added', AInv c3 c4 sub imV added' (seen ++ ls) := by
   intro ls
   induction ls with
   | nil => intro seen cc c4 added inv h; simp at h; subst h; exact ⟨added, by simpa using inv⟩
@@ -60,7 +61,7 @@ theorem addStepR_inv {c3 sub : Circuit} {imV : List Label}
       · simp only [him, if_true, Except.ok.injEq] at hs
         subst hs
         refine ih (seen ++ [l]) cc c4 added ⟨inv.gates, inv.inputs, inv.outputs, inv.blocks, inv.users, inv.nodup,
-          inv.closed, inv.noInput, ?_⟩ h
+          inv.closed, inv.noInput, inv.fromSub, ?_⟩ h
         intro x hx hxi
         rcases List.mem_append.mp hx with hx | hx
         · exact inv.cover x hx hxi
@@ -78,7 +79,7 @@ theorem addStepR_inv {c3 sub : Circuit} {imV : List Label}
             rw [hgl] at this; exact him this
           have hlab1 : c1.labels = cc.labels ++ [g.label] := by
             rw [labels_append_gates fg]; rfl
-          refine ih (seen ++ [l]) c1 c4 (added ++ [g]) ⟨?_, ?_, ?_, ?_, ?_, ?_, ?_, ?_, ?_⟩ h
+          refine ih (seen ++ [l]) c1 c4 (added ++ [g]) ⟨?_, ?_, ?_, ?_, ?_, ?_, ?_, ?_, ?_, ?_⟩ h
           · rw [fg, inv.gates, List.append_assoc]
           · rw [fi, inv.inputs]; simp [hni]
           · rw [fo, inv.outputs]
@@ -102,8 +103,13 @@ theorem addStepR_inv {c3 sub : Circuit} {imV : List Label}
             rcases List.mem_append.mp hg' with hg' | hg'
             · exact inv.noInput g' hg'
             · simp only [List.mem_singleton] at hg'; subst hg'; exact hni
+          · intro g' hg'
+            rcases List.mem_append.mp hg' with hg' | hg'
+            · exact inv.fromSub g' hg'
+            · simp only [List.mem_singleton] at hg'; subst hg'
+              exact ⟨hgm, by rw [hgl]; simpa using him⟩
           · intro x hx hxi
-            rw [hlab1]
+            rw [List.map_append]
             rcases List.mem_append.mp hx with hx | hx
             · exact List.mem_append_left _ (inv.cover x hx hxi)
             · simp only [List.mem_singleton] at hx; subst hx
@@ -162,7 +168,7 @@ theorem replace_core {c2 c3 c4 c6 sub : Circuit} {S imV omV order : List Label}
   have hnd3 : c3.labels.Nodup := by
     unfold Circuit.labels; rw [inv.gates]
     exact (List.Nodup.sublist ((List.filter_sublist).map _) hw.nodup)
-  obtain ⟨added, ainv⟩ := addStepR_inv hsubI order [] c3 c4 [] (ainv_init imV hnd3) hadd
+  obtain ⟨added, ainv⟩ := addStepR_inv hsubI order [] c3 c4 [] (ainv_init sub imV hnd3) hadd
   simp only [List.nil_append] at ainv
   obtain ⟨f1, f2, f3, f4, f5⟩ := addUsersFold_fields (omV.foldl (collectOuter c2 S) []) { c4 with outputs := c2.outputs }
   rw [← hc6] at f1 f2 f3 f4 f5
@@ -184,7 +190,8 @@ theorem replace_core {c2 c3 c4 c6 sub : Circuit} {S imV omV order : List Label}
     rw [f5 l, hext l]
     rfl
   -- slice outputs come back
-  have hback : ∀ o ∈ omV, o ∈ c4.labels := fun o ho => ainv.cover o (hsubO o ho) (homvI o ho)
+  have hback : ∀ o ∈ omV, o ∈ c4.labels := fun o ho =>
+    (hlab4 o).mpr (Or.inr (ainv.cover o (hsubO o ho) (homvI o ho)))
   have husers : ∀ l u, (c6.usersOf l).count u = contrib c6.gates l u := by
     intro l u
     rw [hu6 l, List.count_append, ainv.users l u, f1, ainv.gates, contrib_append, inv.users l u, inv.gates,
